@@ -4,6 +4,7 @@
 mod common;
 mod c06;
 mod c11;
+mod c16;
 mod c19;
 
 use std::io::Write;
@@ -13,6 +14,7 @@ fn gen_all(id: &str, seed: u64, n: usize, thorough: bool) -> Vec<String> {
         "C06" => c06::gen_cases(seed, n, thorough),
         "C19" => c19::gen_cases(seed, n, thorough),
         "C11" => c11::gen_cases(seed, n, thorough),
+        "C16" => c16::gen_cases(seed, n, thorough),
         _ => panic!("unknown property {}", id),
     }
 }
@@ -22,6 +24,7 @@ fn run_line(id: &str, line: &str) -> String {
         "C06" => c06::run_line(line),
         "C19" => c19::run_line(line),
         "C11" => c11::run_line(line),
+        "C16" => c16::run_line(line),
         _ => "UNKNOWN-PROPERTY".to_string(),
     });
     match r {
